@@ -1,0 +1,11 @@
+//go:build !verif
+
+/*
+Copyright 2026 Codenotary Inc. All rights reserved.
+
+SPDX-License-Identifier: BUSL-1.1
+*/
+
+package replication
+
+func (txr *TxReplicator) simTryMutex() bool { return true }
